@@ -96,18 +96,20 @@ def run(ctx):
     vr = A.Resolver(v)
     vc = A.Conds(v, vr)
     pushes = A.call_blocks(v, A.name_endswith("Vec::<T, A>::push"))
+    RTWD_VARIANTS = [x["name"] for x in prog.adt("dns_types::protocol::types::RecordTypeWithData")["variants"]]
     admitted = []
     for b, t in pushes:
         e = vr.call_expr(t, b)
         p = A.path_str(e[2][1])
         if p and p.startswith("param2.") and p.endswith(".[]"):
             admitted.append((b, p, e))
-    ctx.floor("C06.3", "records admitted from reply sections", len(admitted), 8)
+    ctx.floor("C06.3", "records admitted from reply sections", len(admitted), 4)
     table = set()
     for n, (b, p, e) in enumerate(admitted):
         section = p.split(".")[1]
         ok, edges = vc.guarded(b, lambda fc, p=p: mentions_path(fc, p + ".name"))
-        variants = sorted({fc[1] for fc in vc.facts_on_all_paths(b) if fc[0] == "is" and A.path_str(fc[2]) == p + ".rtype_with_data"})
+        pv = A.possible_variants(v, vc, lambda x, p=p: A.path_str(x) == p + ".rtype_with_data", RTWD_VARIANTS, b)
+        variants = sorted(pv) if len(pv) < len(RTWD_VARIANTS) else []          # [] = admitted whatever its type
         key = "%s:%s#%d" % (section, "/".join(variants) or "by-type", sum(1 for x in admitted[:n] if x[1] == p))
         ctx.check(ok, "C06.3", "validate:owner-check:" + key, "admission of %s depends on a test of its .name" % p,
                   "a record of the %s section is accepted without any test of its owner name" % section, v.loc(b))
@@ -118,12 +120,12 @@ def run(ctx):
                                 and A.path_str(fc[2][0]) == p)
             ctx.check(ok8, "C06.8", "validate:unknown-skipped:" + key, "pushed only when !an.is_unknown()",
                       "records of unknown type/class can be admitted", v.loc(b))
-        if variants and variants[0] in ("A", "AAAA"):
+        if variants and set(variants) <= {"A", "AAAA"}:
             okg, _ = vc.guarded(b, lambda fc, p=p: fc[0] == "call" and fc[1].endswith("HashSet::<T, S, A>::contains") and fc[3] is True
                                 and A.path_str(fc[2][1]) == p + ".name")
             ctx.check(okg, "C06.6", "validate:glue:" + key, "address record admitted only if its owner is a selected NS host",
                       "address record from %s admitted without `ns_names.contains(&rr.name)`" % section, v.loc(b))
-        if variants and variants[0] == "NS":
+        if variants == ["NS"]:
             okn, _ = vc.guarded(b, lambda fc, p=p: fc[0] == "call" and fc[1].endswith("HashSet::<T, S, A>::contains") and fc[3] is True
                                 and A.path_str(fc[2][1]) == p + ".rtype_with_data.<NS>.nsdname")
             ctx.check(okn, "C06.6", "validate:ns-host:" + key, "NS record admitted only if its target is a selected NS host",
